@@ -58,9 +58,9 @@ def run(ctx):
         for f in cls.funcs():
             for n_ in ast.walk(f.node):
                 if isinstance(n_, ast.Raise) and n_.exc is not None:
-                    name = ast.unparse(n_.exc.func if isinstance(n_.exc, ast.Call) else n_.exc)
-                    if name in got:
-                        got[name] += 1
+                    for name in _raised_classes(f.node, n_.exc):
+                        if name in got:
+                            got[name] += 1
         for k, v in want.items():
             ctx.instances["E2 raise sites"] += got[k]
             if got[k] < v:
@@ -68,3 +68,27 @@ def run(ctx):
                 ctx.viol("E2", f, f.node, "%s has %d %s refusal site(s); %d are needed (type of parent, type of child, "
                          "duplicate child / self as parent, ancestor as parent): a call that must be refused is accepted" % (
                              m, got[k], k, v), construct="%s: %s refusal sites %d < %d" % (m, k, got[k], v))
+
+
+def _raised_classes(fn, exc):
+    """exception class name(s) of a raise operand, one entry per refusal source: `raise E(...)`, or `raise v` with
+    `v = E(...)` bound in the function; an `E(msg)` whose message variable is bound to several (non-None) messages is
+    one refusal per message (single raise point after several checks)"""
+    import ast
+    if isinstance(exc, ast.Name):
+        out = []
+        for n in ast.walk(fn):
+            if isinstance(n, ast.Assign) and len(n.targets) == 1 and isinstance(n.targets[0], ast.Name) \
+                    and n.targets[0].id == exc.id and isinstance(n.value, ast.Call):
+                out.extend(_raised_classes(fn, n.value))
+        return out
+    if isinstance(exc, ast.Call):
+        name = ast.unparse(exc.func)
+        k = 1
+        if exc.args and isinstance(exc.args[0], ast.Name):
+            msgs = [n for n in ast.walk(fn) if isinstance(n, ast.Assign) and len(n.targets) == 1
+                    and isinstance(n.targets[0], ast.Name) and n.targets[0].id == exc.args[0].id
+                    and not (isinstance(n.value, ast.Constant) and n.value.value is None)]
+            k = max(1, len(msgs))
+        return [name] * k
+    return [ast.unparse(exc)]
